@@ -259,8 +259,9 @@ func checkC13(w *Worker) {
 		n2 := c13Names[x.Choose(len(c13Names), "input:element")]
 		q := c13Qty[x.Choose(len(c13Qty), "input:qty")]
 		x.Case(n1+"|"+n2+"|"+q, true)
-		book := "zz:\n  " + n2 + ": 1\n" + n1 + ":\n  # barcode: 12\n  " + n2 + ": " + q + "\n  cal: 2\n  " + n2 + ": 1\nempty:\n"
-		want := []csvWant{{"zz", n2, exactDec("1")}, {n1, n2, exactDec(q)}, {n1, "cal", exactDec("2")}, {n1, n2, exactDec("1")}}
+		// (the last heading repeats the first one: the raw export is per entry in file order, not per distinct recipe)
+		book := "zz:\n  " + n2 + ": 1\n" + n1 + ":\n  # barcode: 12\n  " + n2 + ": " + q + "\n  cal: 2\n  " + n2 + ": 1\nempty:\nzz:\n  cal: 3\n"
+		want := []csvWant{{"zz", n2, exactDec("1")}, {n1, n2, exactDec(q)}, {n1, "cal", exactDec("2")}, {n1, n2, exactDec("1")}, {"zz", "cal", exactDec("3")}}
 		verify(x, appCase{Args: []string{"csv", "database"}, Files: map[string]string{"food.yaml": book}}, want, 2, "database")
 	})
 	// book shapes: two foods over every subset of three elements (listed in either order), a recipe made of any
